@@ -62,7 +62,7 @@ func xpath(r *h.Rng) string {
 	for i := 1 + r.Intn(5); i > 0; i-- {
 		s += pick(r, "/a", "/b", "//a", "//b", "/*", "//*", "/a[1]", "/a[0]", "/a[-1]", "/a[last()]", "/a[position()>1]", "/a[@id]", "/a[@id='1']", "//@id", "/text()", "/node()", "/..", "/.",
 			"/a[b]", "/a[count(b)>0]", "/a|/b", "/a[", "/a]", "/[", "/a[@", "/a[1 div 0]", "/a[1 mod 0]", "/a[99999999999999999999]", "/ns:d", "/a[contains(.,'t')]", "/a[substring(.,1,99999999999)]",
-			"/a[substring(.,-5,3)]", "/a[string-length()>1]", "/a[sum(b)]", "/a[number(.)]", "/a[not(", "/child::a", "/descendant-or-self::node()", "/following-sibling::*", "/ancestor::*", "/a[name()='a']", "/a[boolean(1)]", "/a[concat('a')]")
+			"/a[substring(.,-5,3)]", "/a[string-length()>1]", "/a[sum(b)]", "/a[number(.)]", "/a[not(", "/child::a", "/descendant-or-self::node()", "/following-sibling::*", "/parent::*", "/a[name()='a']", "/a[boolean(1)]", "/a[concat('a')]")
 	}
 	if !strings.HasPrefix(s, "/") {
 		s = "/" + s
